@@ -33,6 +33,9 @@ broadcast axiom fn repr_cases(r: PStrPrivateRepr)
     #[trigger] repr_heap_id(r) is Some <==> repr_inline(r) is None,
     repr_inline(r) is Some ==> fits_inline(repr_inline(r)->Some_0);
 
+broadcast axiom fn axiom_empty_fits()
+  ensures #[trigger] fits_inline(Seq::<char>::empty());
+
 impl PStrPrivateRepr {
   #[verifier::external_body]
   fn as_inline_str(&self) -> (r: Result<&str, u32>)
@@ -102,10 +105,23 @@ broadcast axiom fn axiom_slice_key_contains<T, V>(m: Map<&'static [T], V>, k: &[
   ensures #[trigger] vstd::std_specs::hash::contains_borrowed_key::<&'static [T], V, [T]>(m, k) <==> m.contains_key(k);
 broadcast axiom fn axiom_slice_key_maps<T, V>(m: Map<&'static [T], V>, k: &[T], v: V)
   ensures #[trigger] vstd::std_specs::hash::maps_borrowed_key_to_value::<&'static [T], V, [T]>(m, k, v) <==> m.contains_key(k) && m[k] == v;
-broadcast group group_slice_keys { axiom_slice_key_contains, axiom_slice_key_maps }
+broadcast axiom fn axiom_slice_ext<T>(a: &'static [T], b: &'static [T])
+  ensures #[trigger] a@ == #[trigger] b@ ==> a == b;
+broadcast group group_slice_keys { axiom_slice_key_contains, axiom_slice_key_maps, axiom_slice_ext }
 
 #[verifier::external_body]
 fn vec_leak<T>(v: Vec<T>) -> (r: &'static [T]) ensures r@ == v@ { unimplemented!() }
+
+// Trusted std contracts missing from vstd: Option::copied, Option::or_else.
+pub assume_specification<'a, T: Copy>[ Option::<&'a T>::copied ](o: Option<&'a T>) -> (r: Option<T>)
+  ensures r == (match o { Some(x) => Some(*x), None => None });
+pub assume_specification<T, F: FnOnce() -> Option<T>>[ Option::<T>::or_else ](o: Option<T>, f: F) -> (r: Option<T>)
+  requires o is None ==> f.requires(()),
+  ensures match o { Some(x) => r == Some(x), None => f.ensures((), r) };
+
+pub assume_specification<T, E, F: FnOnce(E) -> T>[ Result::<T, E>::unwrap_or_else ](res: Result<T, E>, f: F) -> (t: T)
+  requires res is Err ==> f.requires((res->Err_0,)),
+  ensures match res { Ok(v) => t == v, Err(e) => f.ensures((e,), t) };
 
 // R3 stubs: the exact unsafe / leaking / cfg expressions of the real code, with their
 // documented behaviour as contract.
@@ -114,6 +130,16 @@ fn unsafe_extend_str_lifetime(key: &str) -> (r: &'static str) ensures r@ == key@
 #[verifier::external_body]
 fn cfg_test() -> bool { unimplemented!() }
 fn runtime_assert(b: bool) requires b {}
+#[verifier::external_body]
+fn unreachable_panic() -> ! requires false { unimplemented!() }
+#[verifier::external_body]
+fn pstr_const_dummy_module() -> (r: PStr) ensures repr_inline(r.0) is Some { unimplemented!() }
+#[verifier::external_body]
+fn pstr_const_std() -> (r: PStr) ensures repr_inline(r.0) is Some { unimplemented!() }
+#[verifier::external_body]
+fn pstr_const_tuples() -> (r: PStr) ensures repr_inline(r.0) is Some { unimplemented!() }
+#[verifier::external_body]
+fn format_temp_name(id: u32) -> (r: String) ensures fits_inline(r@) { unimplemented!() }
 #[verifier::external_body]
 fn box_leak_string(s: String) -> (r: &'static str) ensures r@ == s@ { unimplemented!() }
 
@@ -137,6 +163,21 @@ impl PStr {
       Some(p) => fits_inline(s@) && repr_inline(p.0) == Some(s@),
       None => !fits_inline(s@),
     }
+//@end
+}
+
+// R12: `Deref::deref` is emitted as an inherent method (Verus forbids `requires` on trait impls);
+// the one deref coercion that reaches it (in PStr::as_str) is written as an explicit call.
+impl StringStoredInHeap {
+//@extract crates/samlang-heap/src/lib.rs :: impl Deref for StringStoredInHeap / fn deref
+//@ret r
+//@replace &Self::Target => &str ## R12: the associated type `Target = str` of the Deref impl written out
+//@replace panic!("Dereferencing deallocated string: {}", s.as_deref().unwrap_or("???")) => unreachable_panic() ## R3: the panic becomes a call with precondition false (so reading a reclaimed slot is proved impossible under the contract)
+//@contract
+    requires
+      !(self is Deallocated),
+    ensures
+      Some(r@) == slot_content(*self),                                              // :reads_slot_text
 //@end
 }
 
@@ -241,8 +282,56 @@ impl Heap {
     &&& forall|k: &'static [PStr]| #[trigger] self.interned_module_reference@.contains_key(k)
           ==> self.interned_module_reference@[k].0 < self.module_reference_pointer_table.len()
               && self.module_reference_pointer_table[self.interned_module_reference@[k].0 as int]@ == k@
+    &&& forall|m: int| 0 <= m < self.module_reference_pointer_table.len()
+          ==> self.interned_module_reference@.contains_key(#[trigger] self.module_reference_pointer_table[m])
+              && self.interned_module_reference@[self.module_reference_pointer_table[m]].0 == m
   }
   spec fn wf(&self) -> bool { self.wf_strings() && self.wf_modules() }
+
+  proof fn lemma_wf_modules_same_fields(&self, other: &Heap)
+    requires other.wf_modules(), self.str_pointer_table == other.str_pointer_table,
+      self.module_reference_pointer_table == other.module_reference_pointer_table,
+      self.interned_module_reference == other.interned_module_reference,
+    ensures self.wf_modules()
+  {
+    assert forall|m: int, j: int| 0 <= m < self.module_reference_pointer_table.len()
+        && 0 <= j < self.module_reference_pointer_table[m]@.len()
+        implies self.part_ok(#[trigger] self.module_reference_pointer_table[m]@[j]) by {
+      assert(other.part_ok(other.module_reference_pointer_table[m]@[j]));
+    }
+  }
+
+  /// pushing the dummy slot Permanent("") (used only to advance ids) keeps the invariant
+  proof fn lemma_wf_after_push_empty(&self, mid: &Heap)
+    requires mid.wf(), mid.len() < 0xffff_ffff,
+      self.str_pointer_table@ == mid.str_pointer_table@.push(StringStoredInHeap::Permanent("")),
+      self.sweep_index == mid.sweep_index,
+      self.interned_string == mid.interned_string, self.interned_static_str == mid.interned_static_str,
+      self.module_reference_pointer_table == mid.module_reference_pointer_table,
+      self.interned_module_reference == mid.interned_module_reference,
+    ensures self.wf(), self.preserves(mid)
+  {
+    broadcast use axiom_empty_fits;
+    assert(""@ =~= Seq::<char>::empty()) by { reveal_strlit(""); }
+    assert forall|i: int| 0 <= i < self.len() && #[trigger] self.is_temp(i) implies self.temp_slot_ok(i) by {
+      assert(mid.is_temp(i)); assert(mid.temp_slot_ok(i));
+    }
+    assert forall|i: int| 0 <= i < self.len() && #[trigger] self.is_perm(i) implies self.perm_slot_ok(i) by {
+      if i < mid.len() { assert(mid.is_perm(i)); assert(mid.perm_slot_ok(i)); }
+    }
+    assert forall|k: &'static str| #[trigger] self.interned_static_str@.contains_key(k) implies self.static_key_ok(k) by {
+      assert(mid.static_key_ok(k));
+    }
+    assert forall|k: &'static str| #[trigger] self.interned_string@.contains_key(k) implies self.temp_key_ok(k) by {
+      assert(mid.temp_key_ok(k));
+    }
+    assert forall|m: int, j: int| 0 <= m < self.module_reference_pointer_table.len()
+        && 0 <= j < self.module_reference_pointer_table[m]@.len()
+        implies self.part_ok(#[trigger] self.module_reference_pointer_table[m]@[j]) by {
+      assert(mid.part_ok(mid.module_reference_pointer_table[m]@[j]));
+    }
+    assert forall|i: int| 0 <= i < mid.len() implies #[trigger] self.content(i) == mid.content(i) by {}
+  }
 
   /// wf_strings only reads the string table, the two string maps and the cursor
   proof fn lemma_wf_strings_same_fields(&self, other: &Heap)
@@ -388,6 +477,7 @@ impl Heap {
       final(self).live(r) && final(self).read(r) == string@,                        // :reads_back_exact_string
       repr_heap_id(r.0) is None <==> fits_inline(string@),                          // :inline_iff_short
       final(self).preserves(old(self)),                                             // :frame_nothing_readable_changes
+      final(self).len() <= old(self).len() + 1,                                     // :table_grows_by_at_most_one
       forall|i: int| 0 <= i < old(self).len() ==> final(self).str_pointer_table[i] == old(self).str_pointer_table[i],  // :frame_all_old_slots_identical
       repr_heap_id(r.0) is Some && !(exists|i: int| 0 <= i < old(self).len() && old(self).content(i) == Some(string@))
         ==> (repr_heap_id(r.0)->Some_0) as int == old(self).len() && final(self).len() == old(self).len() + 1,  // :fresh_slot_when_absent
@@ -562,6 +652,7 @@ impl Heap {
       repr_heap_id(r.0) is None <==> fits_inline(str@),                             // :inline_iff_short
       repr_heap_id(r.0) is Some ==> final(self).is_perm(repr_heap_id(r.0)->Some_0 as int),  // :result_is_permanent
       final(self).preserves(old(self)),                                             // :frame_nothing_readable_changes
+      final(self).len() <= old(self).len() + 1,                                     // :table_grows_by_at_most_one
       final(self).module_reference_pointer_table == old(self).module_reference_pointer_table,   // :module_table_unchanged
       final(self).unmarked_module_references == old(self).unmarked_module_references,           // :gate_unchanged
 //@before if let Some(p) = PStr::create_inline_opt(str) {
@@ -693,6 +784,11 @@ impl Heap {
       forall|m: int| 0 <= m < old(self).module_reference_pointer_table.len()
         ==> final(self).module_reference_pointer_table[m] == old(self).module_reference_pointer_table[m],  // :existing_module_refs_unchanged
       final(self).unmarked_module_references == old(self).unmarked_module_references,           // :gate_unchanged
+      (forall|m: int| 0 <= m < old(self).module_reference_pointer_table.len() ==> old(self).module_reference_pointer_table[m]@ != parts@)
+        ==> r.0 == old(self).module_reference_pointer_table.len()
+            && final(self).module_reference_pointer_table.len() == old(self).module_reference_pointer_table.len() + 1,  // :fresh_module_ref_when_absent
+      forall|m: int| 0 <= m < old(self).module_reference_pointer_table.len() && old(self).module_reference_pointer_table[m]@ == parts@
+        ==> r.0 == m && final(self).module_reference_pointer_table.len() == old(self).module_reference_pointer_table.len(),  // :same_module_ref_when_present
 //@before if let Some(id) = self.interned_module_reference.get(parts.deref()) {
     proof { broadcast use group_slice_keys; self.lemma_preserves_refl(); }
 //@loop 0 iter=it
@@ -751,6 +847,354 @@ impl Heap {
         }
       }
 //@end
+
+//@extract crates/samlang-heap/src/lib.rs :: impl Heap / fn sync_temp_counter
+//@contract
+    requires
+      old(self).wf(),
+    ensures
+      final(self).wf(),                                                             // :wf_preserved
+      final(self).preserves(old(self)),                                             // :frame_nothing_readable_changes
+      forall|i: int| 0 <= i < old(self).len() ==> final(self).str_pointer_table[i] == old(self).str_pointer_table[i],  // :frame_all_old_slots_identical
+      final(self).module_reference_pointer_table == old(self).module_reference_pointer_table,   // :module_table_unchanged
+      final(self).unmarked_module_references == old(self).unmarked_module_references,           // :gate_unchanged
+//@before let target = counter.current() as usize;
+    proof { self.lemma_preserves_refl(); broadcast use axiom_empty_fits; }
+//@loop 0
+      invariant
+        self.wf(),
+        self.preserves(old(self)),
+        target <= 0xffff_ffff,
+        forall|i: int| 0 <= i < old(self).len() ==> self.str_pointer_table[i] == old(self).str_pointer_table[i],
+        self.module_reference_pointer_table == old(self).module_reference_pointer_table,
+        self.unmarked_module_references == old(self).unmarked_module_references,
+      decreases target - self.str_pointer_table.len(),
+//@before self.str_pointer_table.push(StringStoredInHeap::Permanent(""));
+      let ghost mid = *self;
+//@after self.str_pointer_table.push(StringStoredInHeap::Permanent(""));
+      proof { broadcast use axiom_empty_fits; self.lemma_wf_after_push_empty(&mid); self.lemma_preserves_trans(&mid, old(self)); }
+//@end
+
+//@extract crates/samlang-heap/src/lib.rs :: impl Heap / fn alloc_temp_str
+//@ret r
+//@replace format!("_t{id}") => format_temp_name(id) ## R3: formatting "_t" followed by the decimal digits of a u32 (at most 12 bytes)
+//@contract
+    requires
+      old(self).wf(),
+      old(self).len() < 0xffff_ffff,
+    ensures
+      final(self).wf(),                                                             // :wf_preserved
+      final(self).preserves(old(self)),                                             // :frame_nothing_readable_changes
+      repr_heap_id(r.0) is None,                                                    // :temp_name_is_inline
+      forall|i: int| 0 <= i < old(self).len() ==> final(self).str_pointer_table[i] == old(self).str_pointer_table[i],  // :frame_all_old_slots_identical
+      final(self).module_reference_pointer_table == old(self).module_reference_pointer_table,   // :module_table_unchanged
+      final(self).unmarked_module_references == old(self).unmarked_module_references,           // :gate_unchanged
+//@before let id = self.str_pointer_table.len() as u32;
+    proof { broadcast use repr_cases, axiom_empty_fits; }
+    let ghost mid = *self;
+//@after self.str_pointer_table.push(StringStoredInHeap::Permanent(""));
+    proof { self.lemma_wf_after_push_empty(&mid); }
+//@end
+
+//@extract crates/samlang-heap/src/lib.rs :: impl Heap / fn add_unmarked_module_reference
+//@contract
+    requires
+      old(self).wf(),
+      vstd::std_specs::hash::obeys_key_model::<ModuleReference>(),
+    ensures
+      final(self).wf(),                                                             // :wf_preserved
+      final(self).unmarked_module_references@ == old(self).unmarked_module_references@.insert(module_reference),  // :gate_gains_module
+      final(self).gate_closed(),                                                    // :gate_closed_afterwards
+      final(self).str_pointer_table == old(self).str_pointer_table,                 // :table_unchanged
+      final(self).interned_string == old(self).interned_string,                     // :temp_map_unchanged
+      final(self).interned_static_str == old(self).interned_static_str,             // :static_map_unchanged
+      final(self).sweep_index == old(self).sweep_index,                             // :cursor_unchanged
+      final(self).module_reference_pointer_table == old(self).module_reference_pointer_table,   // :module_table_unchanged
+//@atend
+    proof {
+      self.lemma_wf_strings_same_fields(old(self));
+      self.lemma_wf_modules_same_fields(old(self));
+    }
+//@end
+
+//@extract crates/samlang-heap/src/lib.rs :: impl Heap / fn pop_unmarked_module_reference
+//@ret r
+//@contract
+    requires
+      old(self).wf(),
+      vstd::std_specs::hash::obeys_key_model::<ModuleReference>(),
+    ensures
+      final(self).wf(),                                                             // :wf_preserved
+      match r {                                                                     // :gate_loses_exactly_the_returned_module
+        Some(m) => final(self).unmarked_module_references@ == old(self).unmarked_module_references@.remove(m),
+        None => !old(self).gate_closed() && final(self).unmarked_module_references@ == old(self).unmarked_module_references@,
+      },
+      final(self).str_pointer_table == old(self).str_pointer_table,                 // :table_unchanged
+      final(self).interned_string == old(self).interned_string,                     // :temp_map_unchanged
+      final(self).interned_static_str == old(self).interned_static_str,             // :static_map_unchanged
+      final(self).sweep_index == old(self).sweep_index,                             // :cursor_unchanged
+      final(self).module_reference_pointer_table == old(self).module_reference_pointer_table,   // :module_table_unchanged
+//@before Some(item)
+    proof {
+      self.lemma_wf_strings_same_fields(old(self));
+      self.lemma_wf_modules_same_fields(old(self));
+    }
+//@end
+
+//@extract crates/samlang-heap/src/lib.rs :: impl Heap / fn alloc_str_for_test
+//@ret r
+//@contract
+    requires
+      old(self).wf(),
+      old(self).len() < 0xffff_ffff,
+      vstd::std_specs::hash::obeys_key_model::<&'static str>(),
+    ensures
+      final(self).wf(),                                                             // :wf_preserved
+      final(self).live(r) && final(self).read(r) == s@,                             // :reads_back_exact_string
+      final(self).preserves(old(self)),                                             // :frame_nothing_readable_changes
+//@end
+
+//@extract crates/samlang-heap/src/lib.rs :: impl Heap / fn get_allocated_str_opt
+//@ret r
+//@replace || self.interned_string.get(&str) => || -> (o: Option<&u32>) ensures (match o { Some(v) => self.interned_string@.contains_key(str) && *v == self.interned_string@[str], None => !self.interned_string@.contains_key(str) }) { self.interned_string.get(&str) } ## R8: contract on a closure (ghost annotation; the body is wrapped in braces, nothing else changes)
+//@replace |id| PStr(PStrPrivateRepr::from_id(id)) => |id: u32| -> (p: PStr) ensures repr_heap_id(p.0) == Some(id) { PStr(PStrPrivateRepr::from_id(id)) } ## R8: contract on a closure (ghost annotation; the body is wrapped in braces, nothing else changes)
+//@before let inlined = PStr::create_inline_opt(str);
+    proof {
+      broadcast use repr_cases, group_str_keys;
+      lemma_str_of_view(str_of(str@));
+      assert forall|i: int| 0 <= i < self.len() && self.content(i) == Some(str@) && !fits_inline(str@) implies
+         self.interned_static_str@.contains_key(str_of(str@)) || self.interned_string@.contains_key(str_of(str@)) by {
+           if self.is_temp(i) { assert(self.temp_slot_ok(i)); } else { assert(self.is_perm(i)); assert(self.perm_slot_ok(i)); }
+      }
+      if self.interned_static_str@.contains_key(str_of(str@)) { assert(self.static_key_ok(str_of(str@))); }
+      if self.interned_string@.contains_key(str_of(str@)) { assert(self.temp_key_ok(str_of(str@))); }
+    }
+//@contract
+    requires
+      self.wf(),
+      vstd::std_specs::hash::obeys_key_model::<&'static str>(),
+    ensures
+      match r {                                                                     // :finds_exactly_the_live_handle
+        Some(p) => self.live(p) && self.read(p) == str@,
+        None => !fits_inline(str@) && forall|i: int| 0 <= i < self.len() ==> self.content(i) != Some(str@),
+      },
+//@end
+
+//@extract crates/samlang-heap/src/lib.rs :: impl Heap / fn alloc_dummy_module_reference
+//@ret r
+//@replace PStr::DUMMY_MODULE => pstr_const_dummy_module() ## R7: const built by the const-fn union constructors (proved by the Kani unit to be an inline handle)
+//@contract
+    requires
+      old(self).wf(),
+      old(self).module_reference_pointer_table.len() < usize::MAX,
+      vstd::std_specs::hash::obeys_key_model::<&'static str>(),
+      vstd::std_specs::hash::obeys_key_model::<&'static [PStr]>(),
+    ensures
+      final(self).wf(),                                                             // :wf_preserved
+      final(self).preserves(old(self)),                                             // :frame_nothing_readable_changes
+//@before let parts = vec![PStr::DUMMY_MODULE];
+    proof { broadcast use repr_cases; }
+//@end
+
+//@extract crates/samlang-heap/src/lib.rs :: impl Heap / fn new
+//@ret r
+//@replace* PStr::DUMMY_MODULE => pstr_const_dummy_module() ## R7: const built by the const-fn union constructors (proved by the Kani unit to be an inline handle)
+//@replace PStr::STD => pstr_const_std() ## R7: const built by the const-fn union constructors (proved by the Kani unit to be an inline handle)
+//@replace PStr::TUPLES => pstr_const_tuples() ## R7: const built by the const-fn union constructors (proved by the Kani unit to be an inline handle)
+//@replace debug_assert!(ModuleReference::DUMMY == allocated_dummy); => runtime_assert(ModuleReference::DUMMY.0 == allocated_dummy.0); ## R3: the debug assertion becomes a call whose precondition is the asserted condition (derived PartialEq on a one-field tuple struct compares that field)
+//@replace debug_assert!(ModuleReference::STD_TUPLES == allocated_std_tuples); => runtime_assert(ModuleReference::STD_TUPLES.0 == allocated_std_tuples.0); ## R3: the debug assertion becomes a call whose precondition is the asserted condition (derived PartialEq on a one-field tuple struct compares that field)
+//@contract
+    requires
+      vstd::std_specs::hash::obeys_key_model::<&'static str>(),
+      vstd::std_specs::hash::obeys_key_model::<&'static [PStr]>(),
+      vstd::std_specs::hash::obeys_key_model::<ModuleReference>(),
+    ensures
+      r.wf(),                                                                       // :new_heap_is_wf
+      r.len() == 0,                                                                 // :new_heap_has_no_strings
+      !r.gate_closed(),                                                             // :new_heap_gate_open
+//@before heap.alloc_module_reference(Vec::new()); // Root
+    proof { broadcast use repr_cases; }
+//@end
+}
+
+impl PStr {
+//@extract crates/samlang-heap/src/lib.rs :: impl PStr / fn as_str
+//@ret r
+//@replace |id| &heap.str_pointer_table[id as usize] => |id: u32| -> (t: &'a str) requires (id as int) < heap.len() && heap.content(id as int) is Some ensures Some(t@) == heap.content(id as int) { heap.str_pointer_table[id as usize].deref() } ## R12: closure contract (ghost) and the `&T -> &str` deref coercion written as the explicit call `.deref()`
+//@contract
+    requires
+      heap.live(*self),
+    ensures
+      r@ == heap.read(*self),                                                       // :live_handle_reads_its_string
+//@before self.0.as_inline_str().unwrap_or_else(
+    proof { broadcast use repr_cases; }
+//@end
+}
+
+impl ModuleReference {
+//@extract crates/samlang-heap/src/lib.rs :: impl ModuleReference / const ROOT
+//@end
+//@extract crates/samlang-heap/src/lib.rs :: impl ModuleReference / const DUMMY
+//@end
+//@extract crates/samlang-heap/src/lib.rs :: impl ModuleReference / const STD_TUPLES
+//@end
+//@extract crates/samlang-heap/src/lib.rs :: impl ModuleReference / fn get_parts
+//@ret r
+//@contract
+    requires
+      heap.wf(),
+      self.0 < heap.module_reference_pointer_table.len(),
+    ensures
+      r@ == heap.module_reference_pointer_table[self.0 as int]@,                    // :returns_the_interned_parts
+      forall|j: int| 0 <= j < r@.len() ==> heap.live(#[trigger] r@[j]),               // :parts_are_live
+//@end
+}
+
+// ------------------------------------------------------------------------------------------
+// The sentences of property C17 as theorems over the contracts above.  These are exec functions
+// that call the real (extracted) methods on an arbitrary well-formed heap with arbitrary
+// arguments; Verus checks them modularly, i.e. against the callee contracts only.
+
+/// "two handles are equal exactly when their strings are equal" (regular strings)
+fn thm_equal_handles_iff_equal_strings(heap: &mut Heap, s1: String, s2: String)
+  requires old(heap).wf(), old(heap).len() + 2 < 0xffff_ffff,
+    vstd::std_specs::hash::obeys_key_model::<&'static str>(),
+{
+  let ghost t1 = s1@;
+  let ghost t2 = s2@;
+  let h1 = heap.alloc_string(s1);
+  let ghost mid = *heap;
+  let h2 = heap.alloc_string(s2);
+  proof {
+    broadcast use repr_cases;
+    if repr_heap_id(h1.0) is Some && repr_heap_id(h2.0) is Some {
+      let i1 = repr_heap_id(h1.0)->Some_0 as int;
+      let i2 = repr_heap_id(h2.0)->Some_0 as int;
+      assert(heap.content(i1) == mid.content(i1));
+      if t1 == t2 && i1 != i2 { heap.lemma_contents_unique(i1, i2); }
+    }
+  }
+  assert(handle_eq(h1, h2) <==> t1 == t2);                    // :equal_handles_iff_equal_strings
+  assert(heap.live(h1) && heap.read(h1) == t1);               // :earlier_handle_still_reads_its_string
+  assert(heap.live(h2) && heap.read(h2) == t2);               // :later_handle_reads_its_string
+}
+
+/// the same across the two allocation entry points (static strings are promoted, not duplicated)
+fn thm_equal_handles_iff_equal_strings_static(heap: &mut Heap, s1: String, s2: &'static str, static_first: bool)
+  requires old(heap).wf(), old(heap).len() + 2 < 0xffff_ffff,
+    vstd::std_specs::hash::obeys_key_model::<&'static str>(),
+{
+  let ghost t1 = s1@;
+  let ghost t2 = s2@;
+  let h1;
+  let h2;
+  let ghost mid;
+  if static_first {
+    h2 = heap.alloc_str_internal(s2);
+    proof { mid = *heap; }
+    h1 = heap.alloc_string(s1);
+  } else {
+    h1 = heap.alloc_string(s1);
+    proof { mid = *heap; }
+    h2 = heap.alloc_str_internal(s2);
+  }
+  proof {
+    broadcast use repr_cases;
+    if repr_heap_id(h1.0) is Some && repr_heap_id(h2.0) is Some {
+      let i1 = repr_heap_id(h1.0)->Some_0 as int;
+      let i2 = repr_heap_id(h2.0)->Some_0 as int;
+      if static_first { assert(heap.content(i2) == mid.content(i2)); } else { assert(heap.content(i1) == mid.content(i1)); }
+      if t1 == t2 && i1 != i2 { heap.lemma_contents_unique(i1, i2); }
+    }
+  }
+  assert(handle_eq(h1, h2) <==> t1 == t2);                    // :equal_handles_iff_equal_strings
+  assert(heap.live(h1) && heap.read(h1) == t1);               // :regular_handle_reads_its_string
+  assert(heap.live(h2) && heap.read(h2) == t2);               // :static_handle_reads_its_string
+}
+
+/// "no string that is ... marked since the sweeper last passed over it is ever reclaimed" and
+/// "re-allocating a reclaimed string yields a fresh, readable handle", for every work unit
+fn thm_marked_survives_and_realloc_is_fresh(heap: &mut Heap, s: String, s_again: String, w: usize, do_mark: bool)
+  requires old(heap).wf(), old(heap).len() + 2 < 0xffff_ffff, s@ == s_again@,
+    old(heap).sweep_index + w <= usize::MAX,
+    vstd::std_specs::hash::obeys_key_model::<&'static str>(),
+{
+  let ghost t = s@;
+  let h = heap.alloc_string(s);
+  if do_mark {
+    proof { broadcast use repr_cases; }
+    heap.mark(h);
+  }
+  let ghost before = *heap;
+  heap.sweep(w);
+  proof {
+    broadcast use repr_cases;
+    if repr_heap_id(h.0) is Some {
+      let i = repr_heap_id(h.0)->Some_0 as int;
+      if do_mark { assert(before.marked(i) || before.is_perm(i)); }
+    }
+  }
+  assert(do_mark ==> heap.live(h) && heap.read(h) == t);      // :marked_handle_survives_any_sweep
+  assert(heap.live(h) ==> heap.read(h) == t);                 // :surviving_handle_reads_same_string
+  let ghost swept = *heap;
+  let h2 = heap.alloc_string(s_again);
+  assert(heap.live(h2) && heap.read(h2) == t);                // :realloc_is_readable
+  proof {
+    if !swept.live(h) && repr_heap_id(h2.0) is Some {
+      // the old slot is gone, and no other live slot can hold t (it would have been h's slot)
+      assert forall|i: int| 0 <= i < swept.len() implies swept.content(i) != Some(t) by {
+        if swept.content(i) == Some(t) {
+          let i0 = repr_heap_id(h.0)->Some_0 as int;
+          assert(before.content(i) == Some(t));
+          if i != i0 { before.lemma_contents_unique(i, i0); }
+        }
+      }
+    }
+  }
+  assert(!swept.live(h) && repr_heap_id(h2.0) is Some ==> (repr_heap_id(h2.0)->Some_0) as int == swept.len());  // :realloc_after_reclaim_is_a_fresh_slot
+}
+
+/// "no string that is permanent [or] part of a module reference ... is ever reclaimed"
+fn thm_module_parts_and_static_strings_survive(heap: &mut Heap, parts: Vec<PStr>, st: &'static str, w: usize)
+  requires old(heap).wf(), old(heap).len() + 2 < 0xffff_ffff,
+    forall|j: int| 0 <= j < parts@.len() ==> old(heap).live(#[trigger] parts@[j]),
+    old(heap).module_reference_pointer_table.len() < usize::MAX,
+    old(heap).sweep_index + w <= usize::MAX,
+    vstd::std_specs::hash::obeys_key_model::<&'static str>(),
+    vstd::std_specs::hash::obeys_key_model::<&'static [PStr]>(),
+{
+  let ghost ps = parts@;
+  let ghost o = *heap;
+  let hs = heap.alloc_str_internal(st);
+  proof {
+    assert forall|j: int| 0 <= j < ps.len() implies heap.live(#[trigger] ps[j]) by {
+      assert(o.live(ps[j]));
+      if repr_heap_id(ps[j].0) is Some { assert(heap.content(repr_heap_id(ps[j].0)->Some_0 as int) == o.content(repr_heap_id(ps[j].0)->Some_0 as int)); }
+    }
+  }
+  let ghost a = *heap;
+  let m = heap.alloc_module_reference(parts);
+  let ghost b = *heap;
+  heap.sweep(w);
+  proof {
+    broadcast use repr_cases;
+    assert forall|j: int| 0 <= j < ps.len() implies heap.live(#[trigger] ps[j]) && heap.read(ps[j]) == o.read(ps[j]) by {
+      assert(b.part_ok(ps[j]));
+      assert(o.live(ps[j]));
+      if repr_heap_id(ps[j].0) is Some {
+        let i = repr_heap_id(ps[j].0)->Some_0 as int;
+        assert(a.content(i) == o.content(i));
+        assert(b.content(i) == a.content(i));
+      }
+    }
+    if repr_heap_id(hs.0) is Some {
+      let i = repr_heap_id(hs.0)->Some_0 as int;
+      assert(b.is_perm(i));
+      assert(b.content(i) == a.content(i));
+    }
+  }
+  assert(forall|j: int| 0 <= j < ps.len() ==> heap.live(#[trigger] ps[j]) && heap.read(ps[j]) == o.read(ps[j]));  // :module_reference_parts_survive_any_sweep
+  assert(heap.live(hs) && heap.read(hs) == st@);              // :static_string_survives_any_sweep
 }
 
 } // verus!
